@@ -653,4 +653,7 @@ func c03(c *ctx) {
 	for k := 0; k < ncr; k++ {
 		c03closeRace(c, k)
 	}
+	for k := 0; k < ncr; k++ {
+		c03closeSendFails(c, k)
+	}
 }
